@@ -291,21 +291,158 @@ bool handle_ok( const World& w, const std::string& op, const std::vector<std::st
     return true;
 }
 
+using Tokens = std::vector<std::string>;
+bool exec_one( std::map<uint64_t, World>& worlds, uint64_t& cur, const Tokens& t, FILE* out );
+
+std::string u64s( uint64_t v ) { return std::to_string( v ); }
+
+std::vector<uint64_t> probe_idx( uint64_t n )
+{
+    return { 0, 1, n - 1, n, n + 1, 4294967295ull };
+}
+
+// the C01 readers on every section / segment with boundary indices (coq/Script.v: query_section)
+bool query_all( std::map<uint64_t, World>& worlds, uint64_t& cur, FILE* out )
+{
+    World&   w  = worlds[cur];
+    unsigned ns = w.el->sections.size();
+    unsigned ng = w.el->segments.size();
+    auto run = [&]( const Tokens& t ) { return exec_one( worlds, cur, t, out ); };
+    for ( unsigned i = 0; i < ns; ++i ) {
+        section*    s  = w.el->sections[i];
+        Elf_Word    ty = s->get_type();
+        std::string si = u64s( i ), k = u64s( 1000 + i );
+        if ( ty == SHT_STRTAB )
+            for ( auto ix : probe_idx( s->get_size() ) )
+                if ( !run( { "strget", si, u64s( ix ) } ) ) return false;
+        if ( ty == SHT_SYMTAB || ty == SHT_DYNSYM ) {
+            symbol_section_accessor a( *w.el, s );
+            uint64_t n = a.get_symbols_num();
+            if ( !run( { "symnum", si } ) ) return false;
+            for ( auto ix : probe_idx( n ) )
+                if ( !run( { "symget", si, u64s( ix ) } ) ) return false;
+        }
+        if ( ty == SHT_NOTE ) {
+            if ( !run( { "notenew", k, "sec", si } ) || !run( { "notenum", k } ) ) return false;
+            uint64_t n = w.note_sec.at( 1000 + i )->get_notes_num();
+            for ( auto ix : probe_idx( n ) )
+                if ( !run( { "noteget", k, u64s( ix ) } ) ) return false;
+        }
+        if ( ty == SHT_DYNAMIC ) {
+            if ( !run( { "dynnew", k, si } ) || !run( { "dynnum", k } ) ) return false;
+            uint64_t n = w.dyn.at( 1000 + i )->get_entries_num();
+            for ( auto ix : probe_idx( n ) )
+                if ( !run( { "dynget", k, u64s( ix ) } ) ) return false;
+        }
+        if ( s->get_name() == ".modinfo" ) {
+            if ( !run( { "modnew", k, si } ) || !run( { "modnum", k } ) ) return false;
+            uint64_t n = w.mod.at( 1000 + i )->get_attribute_num();
+            for ( auto ix : probe_idx( n ) )
+                if ( !run( { "modget", k, u64s( ix ) } ) ) return false;
+        }
+    }
+    for ( unsigned j = 0; j < ng; ++j ) {
+        if ( w.el->segments[j]->get_type() == PT_NOTE ) {
+            std::string k = u64s( 2000 + j );
+            if ( !run( { "notenew", k, "seg", u64s( j ) } ) || !run( { "notenum", k } ) ) return false;
+            uint64_t n = w.note_seg.at( 2000 + j )->get_notes_num();
+            for ( auto ix : probe_idx( n ) )
+                if ( !run( { "noteget", k, u64s( ix ) } ) ) return false;
+        }
+    }
+    return true;
+}
+
+// the C18 readers (coq/Script.v: query_section18)
+bool query_all18( std::map<uint64_t, World>& worlds, uint64_t& cur, FILE* out )
+{
+    World&   w  = worlds[cur];
+    unsigned ns = w.el->sections.size();
+    auto run = [&]( const Tokens& t ) { return exec_one( worlds, cur, t, out ); };
+    static const char* names[] = { "-", "6d61696e", "7072696e7466", "5f7374617274", "78" };
+    for ( unsigned i = 0; i < ns; ++i ) {
+        section*    s  = w.el->sections[i];
+        Elf_Word    ty = s->get_type();
+        std::string si = u64s( i ), k = u64s( 3000 + i );
+        if ( ty == SHT_REL || ty == SHT_RELA ) {
+            uint64_t n = s->get_entry_size() ? s->get_size() / s->get_entry_size() : 0;
+            if ( !run( { "relnum", si } ) ) return false;
+            for ( auto ix : probe_idx( n ) )
+                if ( !run( { "relget", si, u64s( ix ) } ) || !run( { "relgetf", si, u64s( ix ) } ) ) return false;
+        }
+        if ( ty == SHT_SYMTAB || ty == SHT_DYNSYM ) {
+            for ( const char* nm : names )
+                if ( !run( { "symname", si, nm } ) ) return false;
+            if ( !run( { "symval", si, "0" } ) || !run( { "symval", si, "4198400" } ) ||
+                 !run( { "arrange", si, "65535" } ) )
+                return false;
+        }
+        if ( ty == SHT_INIT_ARRAY || ty == SHT_FINI_ARRAY || ty == SHT_PREINIT_ARRAY ) {
+            uint64_t    wd = w.el->get_class() == ELFCLASS32 ? 4 : 8;
+            std::string ws = u64s( wd );
+            if ( !run( { "arrnum", si, ws } ) ) return false;
+            for ( auto ix : probe_idx( s->get_size() / wd ) )
+                if ( !run( { "arrget", si, ws, u64s( ix ) } ) ) return false;
+        }
+        if ( ty == SHT_GNU_versym ) {
+            if ( !run( { "vsnew", k, si } ) || !run( { "vsnum", k } ) ) return false;
+            uint64_t n = w.vs.at( 3000 + i )->get_entries_num();
+            for ( auto ix : probe_idx( n ) )
+                if ( !run( { "vsget", k, u64s( ix ) } ) ) return false;
+        }
+        if ( ty == SHT_GNU_verneed ) {
+            if ( !run( { "vnnew", k, si } ) || !run( { "vnnum", k } ) ) return false;
+            uint64_t n = w.vn.at( 3000 + i )->get_entries_num();
+            for ( uint64_t ix : { (uint64_t)0, (uint64_t)1, (uint64_t)2, n, (uint64_t)4294967295ull } )
+                if ( !run( { "vnget", k, u64s( ix ) } ) ) return false;
+        }
+        if ( ty == SHT_GNU_verdef ) {
+            if ( !run( { "vdnew", k, si } ) || !run( { "vdnum", k } ) ) return false;
+            uint64_t n = w.vd.at( 3000 + i )->get_entries_num();
+            for ( uint64_t ix : { (uint64_t)0, (uint64_t)1, (uint64_t)2, n, (uint64_t)4294967295ull } )
+                if ( !run( { "vdget", k, u64s( ix ) } ) ) return false;
+        }
+    }
+    return true;
+}
+
 void run_case( const Case& c, FILE* out )
 {
-    World w;
+    std::map<uint64_t, World> worlds;
+    uint64_t                  cur = 0;
     for ( const auto& t : c.ops ) {
+        if ( !exec_one( worlds, cur, t, out ) )
+            return;
+    }
+}
+
+bool exec_one( std::map<uint64_t, World>& worlds, uint64_t& cur, const Tokens& t, FILE* out )
+{
+    {
         const std::string& op = t[0];
+        if ( op == "obj" ) {
+            cur = num( t[1] );
+            put_n( out, 120, { cur } );
+            return true;
+        }
+        World& w = worlds[cur];
+        if ( op == "queryall" || op == "queryall18" ) {
+            if ( !w.el ) {
+                fprintf( out, "harness-error no-object\n" );
+                return false;
+            }
+            return op == "queryall" ? query_all( worlds, cur, out ) : query_all18( worlds, cur, out );
+        }
         if ( op == "hashelf" || op == "hashgnu" ) {
             std::string nm = unhex( t[1] );
             uint32_t    hv = op == "hashelf" ? elf_hash( (const unsigned char*)nm.c_str() )
                                              : elf_gnu_hash( (const unsigned char*)nm.c_str() );
             put_n( out, 90, { op == "hashelf" ? 0ull : 1ull, hv } );
-            continue;
+            return true;
         }
         if ( op != "ctor" && !w.el ) {
             fprintf( out, "harness-error no-object\n" );
-            return;
+            return false;
         }
         {
             // positions of arguments that must name an existing section
@@ -334,12 +471,12 @@ void run_case( const Case& c, FILE* out )
                 bad = true;
             if ( bad ) {
                 fprintf( out, "harness-error bad-section %s\n", op.c_str() );
-                return;
+                return false;
             }
         }
         if ( !handle_ok( w, op, t ) ) {
             fprintf( out, "harness-error bad-handle %s\n", op.c_str() );
-            return;
+            return false;
         }
         if ( op == "ctor" ) {
             if ( t[1] == "compr" )
@@ -879,6 +1016,7 @@ void run_case( const Case& c, FILE* out )
         }
         fflush( out );
     }
+    return true;
 }
 
 std::string classify( const std::string& err, int status )
